@@ -42,6 +42,15 @@ CHECKS = {
    text='dfs/bfs (both directions, default and explicit start sets, hook combinations, topsort_unvisited) and both top_sort directions are run on TLC-enumerated DAGs and random circuits, check_circuit_has_no_cycles on deliberately cyclic netlists; the recorded event sequences are accepted or rejected by the abstract traversal specification (reachable set once, enter before exit, post-order exits, unvisited = complement in topological order) evaluated by TLC.',
    note='Trusted: TLC, JudgeC20, event recording by hook closures.',
    tech='abstract traversal specification in TLA+; recorded hook/yield traces validated by TLC'),
+
+ 'C05': dict(cat='model_checking', ref='5 (C05)',
+   text='Clause lists produced by tseytin_transformation / Cnf.from_circuit for TLC-enumerated universe circuits (18 types, arity<=3, all kinds of output selections) and random circuits with <=12 CNF variables are judged by TLC by brute force over ALL assignments of the CNF variables (strictly under the allocation model inputs-first/DFS-post-order, else mapping-free: satisfiable iff all selected outputs true, unique extension); is_circuit_satisfiable answers and models are judged against the truth table.',
+   note='Trusted: TLC, JudgeCnf, the solver shim (a sound and complete solver is inside the property quantifier). Exhaustive over assignments, bounded over circuits.',
+   tech='brute-force CNF exactness evaluated by TLC on recorded Tseytin encodings of TLC-enumerated circuits'),
+ 'C13': dict(cat='model_checking', ref='5 (C13)',
+   text='build_miter is run on thousands of equal-shape and mismatched pairs of TLC-enumerated circuits (1-3 outputs, shared labels, repeated/input outputs, equivalent pairs); TLC judges the miter projection (interface, one output, true exactly where the operand truth tables differ), the real evaluation of the miter on all rows, operands unchanged, the dedicated error, and satisfiable <=> not equivalent.',
+   note='Trusted: TLC, JudgeCnf.C13Fails, solver shim.',
+   tech='TLC-enumerated circuit pairs replayed into build_miter; recorded miters validated by a TLC trace specification'),
 }
 PENDING = 'check not built yet in this round (work in progress; see DESIGN.md section 5)'
 m = {
